@@ -1,3 +1,4 @@
+import PT.Lemmas.MutRefs
 import PT.Lemmas.Union
 /-!
 # C05 — Union yields each prefix of either operand once, in order, correctly tagged
@@ -205,5 +206,14 @@ theorem union_item_repr (a : Tree w L) (b : Tree w R) (hwa : HasWF a) (hwb : Has
        | .both p l r => (l.1, p, l.2) ∈ a.slotEntries ∧ ∃ pr, (r.1, pr, r.2) ∈ b.slotEntries ∧ pr.net = p.net) := by
   rw [union_spec a b hwa hwb]
   exact unionS_item_repr _ _ _ _ _ (Nat.le_refl _)
+
+
+/-- exactly one item per stored prefix: projecting the items to their left (right) components gives
+back the left (right) operand's entry slots — every entry of either view appears in exactly one item -/
+theorem union_projections (a : Tree w L) (b : Tree w R) (hwa : HasWF a) (hwb : HasWF b) :
+    ((union a b).filterMap UItem.view).filterMap UV.lslot = a.slotEntries.map (·.1) ∧
+    ((union a b).filterMap UItem.view).filterMap UV.rslot = b.slotEntries.map (·.1) := by
+  rw [union_spec a b hwa hwb]
+  exact unionS_lslots _ _ _ _ _ (Nat.le_refl _)
 
 end PT.C05
